@@ -633,6 +633,13 @@ fn exhaustive(name: &str) -> i32 {
             if FreeformClass::default().get_value_from_codepoint(0x20) != V::SpecClassPval { println!("{{\"found\":true,\"input\":32,\"detail\":\"U+0020 is not FREE_PVAL\"}}"); return 1; } for cp in (0..=0x10ffffu32).chain([0x110000, 0x110001, 0xffffff, 0x7fffffff, 0x80000000, u32::MAX - 1, u32::MAX]) { n += 1;
             if let Some(d) = c14_cp(cp) { println!("{{\"found\":true,\"input\":{},\"detail\":{}}}", cp, json_str(&d)); return 1; } }
             println!("{{\"found\":false,\"evaluated\":{}}}", n); 0 }
+        // C08 needs the derived property of CHARACTERS only (what an enforced string can contain): same comparison, scalar values only,
+        // so that a change that affects only surrogates or values above U+10FFFF (C14's business) is not a C08 alarm
+        "derived_scalar" => { let mut n = 0u64;
+            if FreeformClass::default().get_value_from_codepoint(0x20) != V::SpecClassPval { println!("{{\"found\":true,\"input\":32,\"detail\":\"U+0020 is not FREE_PVAL\"}}"); return 1; }
+            for cp in 0..=0x10ffffu32 { if char::from_u32(cp).is_none() { continue; } n += 1;
+                if let Some(d) = c14_cp(cp) { println!("{{\"found\":true,\"input\":{},\"detail\":{}}}", cp, json_str(&d)); return 1; } }
+            println!("{{\"found\":false,\"evaluated\":{}}}", n); 0 }
         // C01: classification of every scalar value, every surrogate and boundary values above U+10FFFF returns (no panic);
         // only panics count here, not which value is returned
         "no_panic_cp" => { let mut n = 0u64; for cp in (0..=0x10ffffu32).chain([0x110000, 0x110001, 0xffffff, 0x7fffffff, 0x80000000, u32::MAX - 1, u32::MAX]) { n += 1;
